@@ -27,6 +27,15 @@ func init() {
 	mut("C33", "revert-fix-compaction", "fees/set.go", "\tfor i := 0; i < len(outIndices); i++ {\n\t\tif outIndices[i] == uint64(len(dimensions)) {\n\t\t\tcontinue\n\t\t}\n\t\toutIndices[j] = outIndices[i]\n\t\tj++\n\t}\n\toutIndices = outIndices[:j]", "\tfor i := 0; i < len(outIndices)-j; i++ {\n\t\tif outIndices[i] == uint64(len(dimensions)) {\n\t\t\tj++\n\t\t\ti--\n\t\t\tcontinue\n\t\t}\n\t\toutIndices[i] = outIndices[i+j]\n\t}\n\toutIndices = outIndices[:len(outIndices)-j]", "compaction re-tests the sentinel slot")
 	mut("C33", "mark-when-fits", "fees/set.go", "if !accumulator.CanAdd(dim, limit) {", "if accumulator.CanAdd(dim, limit) {", "selection inverted")
 
+	mut("C35", "revert-fix-fallthrough", "x/dsmr/node.go", "\t\t\t// the fetched chunk was verified and appended by onResponse\n\t\t\tcontinue\n\t\t} else if err != nil {\n\t\t\treturn ExecutedBlock[T]{}, fmt.Errorf(\"failed to get chunk: %w\", err)\n\t\t}", "\t\t}", "fetched chunk then ParseChunk(nil)")
+	mut("C35", "append-before-verify", "x/dsmr/node.go", "\t\t\t\t\tif _, err := n.storage.VerifyRemoteChunk(response); err != nil {\n\t\t\t\t\t\tresult <- err\n\t\t\t\t\t\treturn\n\t\t\t\t\t}\n\n\t\t\t\t\tchunks = append(chunks, response)", "\t\t\t\t\tchunks = append(chunks, response)\n\t\t\t\t\tif _, err := n.storage.VerifyRemoteChunk(response); err != nil {\n\t\t\t\t\t\tresult <- err\n\t\t\t\t\t\treturn\n\t\t\t\t\t}", "unverified remote chunk appended")
+	mut("C36", "revert-fix-pending-record", "x/dsmr/storage.go", "\t\tif err := batch.Delete(pendingChunkKey(chunk.Chunk.Expiry, chunk.Chunk.id)); err != nil {\n\t\t\treturn fmt.Errorf(\"failed to delete pending chunk %s: %w\", saveChunkID, err)\n\t\t}\n", "", "saved chunk keeps its pending record")
+	mut("C36", "expired-keeps-record", "x/dsmr/storage.go", "\t\tif err := batch.Delete(pendingChunkKey(chunk.Chunk.Expiry, chunk.Chunk.id)); err != nil {\n\t\t\treturn err\n\t\t}\n", "\t\t_ = chunk\n", "expired chunk keeps its pending record")
+	mut("C37", "revert-fix-expiry-check", "x/dsmr/node.go", "\t\tif chunkCert.Expiry < block.Timestamp {\n\t\t\treturn fmt.Errorf(\"%w %s: expiry %d < block timestamp %d\", ErrExpiredChunkCert, chunkCert.ChunkID, chunkCert.Expiry, block.Timestamp)\n\t\t}\n", "", "Verify ignores certificate expiry")
+	mut("C37", "builder-keeps-expired", "x/dsmr/node.go", "if chunkCert.Expiry < timestamp || duplicates.Contains(i) {", "if duplicates.Contains(i) {", "builder includes expired certificates")
+	mut("C38", "revert-fix-idempotent-bond", "internal/chain/bond.go", "\tif bonded {\n\t\treturn true, nil\n\t}\n", "\t_ = bonded\n", "Bond adds the fee again for an already bonded transaction")
+	mut("C38", "unbond-without-record", "internal/chain/bond.go", "\tif errors.Is(err, database.ErrNotFound) {\n\t\t// Make this operation idempotent if the tx was already unbonded\n\t\t// previously\n\t\treturn nil\n\t}\n\tif err != nil {\n\t\treturn fmt.Errorf(\"failed to get tx fee: %w\", err)\n\t}", "\tif err != nil && !errors.Is(err, database.ErrNotFound) {\n\t\treturn fmt.Errorf(\"failed to get tx fee: %w\", err)\n\t}\n\tif len(feeBytes) < 8 {\n\t\tfeeBytes = make([]byte, 8)\n\t}", "Unbond of an unknown transaction still writes")
+
 	vw := "internal/validitywindow/validitywindow.go"
 	mut("C10", "expiry-boundary", vw, "case containerTimestamp < executionTimestamp:", "case containerTimestamp <= executionTimestamp:", "expiry equal to block time rejected")
 	mut("C10", "future-boundary", vw, "case containerTimestamp > executionTimestamp+validityWindow:", "case containerTimestamp >= executionTimestamp+validityWindow:", "upper boundary off by one")
